@@ -151,11 +151,19 @@ def _enabled(kinds):
     return st.lists(st.sampled_from(kinds), min_size=3, max_size=10)
 
 
+def _specs(max_blocks):
+    """Reactor specs; one in three is a Cartesian core whose grid has a non-zero origin offset (quarter core without a centre
+    cell; the blocks of a Cartesian core share that grid object, and the SFP grid is offset as well)."""
+    general = rg.reactor_spec(max_rings=2, max_blocks=max_blocks)
+    offset = rg.reactor_spec(geoms=("cartesian",), symmetries=["quarter reflective"], max_rings=2, max_blocks=max_blocks)
+    return st.one_of(general, general, offset)
+
+
 def retain_strategy(tier):
     return st.fixed_dictionaries(
         {
-            "spec": rg.reactor_spec(max_rings=2, max_blocks=3),
-            "enabled": _enabled(RETAIN_KINDS).map(lambda kinds: kinds + ["keptassign", "keptassign"]),
+            "spec": _specs(3),
+            "enabled": _enabled(RETAIN_KINDS).map(lambda kinds: kinds + ["keptassign", "keptassign", "pitch", "pitch"]),
             "pre": st.lists(_op(), max_size=3),
             "preset": st.one_of(st.none(), _val()),  # give every array/list/dict parameter of the tables a value first
             "program": st.lists(st.one_of(_scope(1), _scope(1), _scope(1), _op()), min_size=1, max_size=3),
@@ -202,6 +210,25 @@ def _locator(o):
     return (type(loc).__name__, idx, owner)
 
 
+GRID_CELLS = [(0, 0, 0), (1, 0, 0), (0, 1, 0), (2, 1, 0), (-1, 2, 0)]
+
+
+def _grid_cells(o):
+    """Origin offset and the centre coordinates of a few cells of the object's own grid (None without a grid)."""
+    g = getattr(o, "spatialGrid", None)
+    if g is None:
+        return None
+    rec = {"offset": [float(x) for x in g.offset]}
+    coords = []
+    for ijk in GRID_CELLS:
+        try:
+            coords.append([float(x) for x in g.getCoordinates(ijk)])
+        except (IndexError, ValueError, KeyError) as e:  # a bounds-defined axis that is shorter than the probe index
+            coords.append(type(e).__name__)
+    rec["cells"] = coords
+    return rec
+
+
 def snapshot(root):
     """Flat (pre-order) list of passive per-object records of ``root`` and everything beneath it."""
     from armi.reactor.components import Component
@@ -211,7 +238,8 @@ def snapshot(root):
     flat = []
 
     def walk(o):
-        rc = {"type": type(o).__name__, "name": o.name, "locator": _locator(o), "grid": ob.grid_record(o), "nchildren": len(o)}
+        rc = {"type": type(o).__name__, "name": o.name, "locator": _locator(o), "grid": ob.grid_record(o), "gridcells": _grid_cells(o),
+              "nchildren": len(o)}
         if "serialNum" in o.p:
             rc["serialNum"] = o.p.serialNum
         rc["params"] = ob.params_record(o)
@@ -271,7 +299,7 @@ def _bucket(difftext, kept_names=()):
         return {"ndens": "number-densities", "Thot": "temperature", "dims": "dimension"}.get(sub, "component") + "-not-restored", name
     if parts[0] in ("cached", "matcached"):
         return "cache-leaked", None
-    if parts[0] == "grid":
+    if parts[0] in ("grid", "gridcells"):
         return "grid-not-restored", None
     if parts[0] == "serialNum":
         return "serial-changed", None
@@ -577,10 +605,22 @@ class Interp:
     def op_pitch(self, op, base):
         from armi.reactor import grids
 
-        i = self.pick("any", op["obj"], base, pred=lambda o: isinstance(o.spatialGrid, (grids.HexGrid, grids.CartesianGrid)))
+        def pitched(o):
+            return isinstance(o.spatialGrid, (grids.HexGrid, grids.CartesianGrid))
+
+        i = None
+        if op["n"] % 3 != 0:
+            # a grid whose origin is offset (changePitch has to scale the offset with the pitch)
+            i = self.pick("any", op["obj"], base, pred=lambda o: pitched(o) and bool(o.spatialGrid._offset.any()))
+        if i is None:
+            i = self.pick("any", op["obj"], base, pred=pitched)
         if i is None:
             return
         g = self.objs[i].spatialGrid
+        if g._offset.any():
+            self.counts["pitch-of-offset-grid"] += 1
+            if self.frames:
+                self.counts["pitch-of-offset-grid-in-scope"] += 1
         new = round(4.0 + 6.0 * op["factor"], 4)
         if isinstance(g, grids.HexGrid):
             g.changePitch(new)
@@ -691,7 +731,7 @@ class Interp:
     def grid_state(self, o):
         from vp.model import observe as ob
 
-        return ob.grid_record(o)
+        return (ob.grid_record(o), _grid_cells(o))
 
     def resolve_keep(self, idx, keep):
         """Parameter definitions named by the keep list, looked up on objects of the scoped subtree."""
@@ -805,7 +845,7 @@ class Interp:
                 g = self.objs[i].spatialGrid
                 if g is not None and id(g) in frame.grids:
                     # the grid object is shared with an object inside the scope: it is restored with that object
-                    rec["grid"] = frame.grids[id(g)]
+                    rec["grid"], rec["gridcells"] = frame.grids[id(g)]
                     self.counts["shared-grid-outside"] += 1
                 expected.append(rec)
                 continue
@@ -850,6 +890,8 @@ class Interp:
                     sig = SIG_MAT
             elif clause == "grid-not-restored" and id(self.objs[i].spatialGrid) in self.grid_trigger:
                 sig = SIG_GRID  # the grid object is shared with an object inside the scope
+            elif clause == "grid-not-restored" and id(self.objs[i].spatialGrid) in frame.grids:
+                sig = "%s/grid-not-restored" % self.prefix  # same grid object as inside the scope: one root cause, one signature
             else:
                 sig = "%s/outside-scope-changed/%s" % (self.prefix, clause)
             self.out.fail(sig, "after leaving scope #%d (depth %d) on %s %r keeping %s: %s %r %s: %s (expected != armi)"
@@ -908,7 +950,7 @@ def copies_strategy(tier):
     )
     return st.fixed_dictionaries(
         {
-            "spec": rg.reactor_spec(max_rings=2, max_blocks=2),
+            "spec": _specs(2),
             "enabled": _enabled(COPY_KINDS),
             "pre": st.lists(_op(), max_size=6),
             "steps": st.lists(step, min_size=1, max_size=4),
